@@ -117,6 +117,10 @@ pub enum ROp {
 pub struct ReloadCase {
     pub initial: u8,
     pub ops: Vec<ROp>,
+    /// the configured paths are symbolic links into a directory of generations; an update writes a
+    /// new generation and re-points the link (the certbot `live/` -> `archive/` layout)
+    #[serde(default)]
+    pub symlinked: bool,
 }
 
 pub struct ReloadFam;
@@ -264,6 +268,25 @@ fn classify(cert: &FileState, key: &FileState) -> Want {
     }
 }
 
+/// As `write_state`, for a path that is a symbolic link: the content goes into a new file of the
+/// `archive` directory next to it and the link is re-pointed (atomically, by rename).
+fn write_state_linked(link: &std::path::Path, f: &FileState, is_cert: bool, generation: &mut u32) {
+    let dir = link.parent().unwrap();
+    let archive = dir.join("archive");
+    let _ = std::fs::create_dir_all(&archive);
+    if *f == FileState::Deleted {
+        let _ = std::fs::remove_file(link);
+        return;
+    }
+    *generation += 1;
+    let real = archive.join(format!("{}{}.pem", if is_cert { "cert" } else { "key" }, generation));
+    write_state(&real, f, is_cert);
+    let tmp = dir.join(format!(".tmp-link-{}", generation));
+    let _ = std::fs::remove_file(&tmp);
+    let _ = std::os::unix::fs::symlink(&real, &tmp);
+    let _ = std::fs::rename(&tmp, link);
+}
+
 fn write_state(path: &std::path::Path, f: &FileState, is_cert: bool) {
     let ms = members();
     let _ = match f {
@@ -309,7 +332,7 @@ impl Family for ReloadFam {
             3 => Just(ROp::Handshake),
             1 => Just(ROp::PingOld),
         ];
-        (0u8..4, proptest::collection::vec(op, 1..16)).prop_map(|(initial, ops)| ReloadCase { initial, ops }).boxed()
+        (0u8..4, proptest::collection::vec(op, 1..16), proptest::bool::weighted(0.3)).prop_map(|(initial, ops, symlinked)| ReloadCase { initial, ops, symlinked }).boxed()
     }
     fn fixed_cases(&self, tier: Tier) -> Vec<ReloadCase> {
         let ms = members();
@@ -333,18 +356,20 @@ impl Family for ReloadFam {
                     } else {
                         vec![ROp::WriteCert(FileState::Member(i as u8)), ROp::WriteKey(st), ROp::Reload, ROp::Handshake, ROp::PingOld]
                     };
-                    v.push(ReloadCase { initial: 0, ops });
+                    v.push(ReloadCase { initial: 0, ops, symlinked: false });
                     n += step;
                 }
             }
         }
+        // updates published by re-pointing symbolic links
+        v.push(ReloadCase { initial: 0, ops: vec![ROp::WriteKey(FileState::Member(1)), ROp::WriteCert(FileState::Member(1)), ROp::Reload, ROp::Handshake, ROp::WriteKey(FileState::Member(2)), ROp::WriteCert(FileState::Member(2)), ROp::Reload, ROp::Handshake, ROp::PingOld], symlinked: true });
         // a renewal that keeps key and serial number: only the certificate file changes, there and back
-        v.push(ReloadCase { initial: 0, ops: vec![ROp::WriteCert(FileState::Member(7)), ROp::Reload, ROp::Handshake, ROp::Handshake, ROp::WriteCert(FileState::Member(0)), ROp::Reload, ROp::Handshake, ROp::PingOld] });
+        v.push(ReloadCase { initial: 0, ops: vec![ROp::WriteCert(FileState::Member(7)), ROp::Reload, ROp::Handshake, ROp::Handshake, ROp::WriteCert(FileState::Member(0)), ROp::Reload, ROp::Handshake, ROp::PingOld], symlinked: false });
         // reload landing between the two writes of an update, both orders
         for (a, b) in [(0u8, 1u8), (1, 2), (2, 3), (3, 0)] {
-            v.push(ReloadCase { initial: a, ops: vec![ROp::WriteCert(FileState::Member(b)), ROp::Reload, ROp::Handshake, ROp::WriteKey(FileState::Member(b)), ROp::Reload, ROp::Handshake, ROp::PingOld] });
-            v.push(ReloadCase { initial: a, ops: vec![ROp::WriteKey(FileState::Member(b)), ROp::Reload, ROp::Handshake, ROp::WriteCert(FileState::Member(b)), ROp::Reload, ROp::Handshake, ROp::PingOld] });
-            v.push(ReloadCase { initial: a, ops: vec![ROp::WriteCert(FileState::Member(4)), ROp::WriteKey(FileState::Member(4)), ROp::Reload, ROp::Handshake] });
+            v.push(ReloadCase { initial: a, ops: vec![ROp::WriteCert(FileState::Member(b)), ROp::Reload, ROp::Handshake, ROp::WriteKey(FileState::Member(b)), ROp::Reload, ROp::Handshake, ROp::PingOld], symlinked: false });
+            v.push(ReloadCase { initial: a, ops: vec![ROp::WriteKey(FileState::Member(b)), ROp::Reload, ROp::Handshake, ROp::WriteCert(FileState::Member(b)), ROp::Reload, ROp::Handshake, ROp::PingOld], symlinked: false });
+            v.push(ReloadCase { initial: a, ops: vec![ROp::WriteCert(FileState::Member(4)), ROp::WriteKey(FileState::Member(4)), ROp::Reload, ROp::Handshake], symlinked: false });
         }
         v
     }
@@ -360,8 +385,17 @@ impl Family for ReloadFam {
             let init = case.initial as usize % 4;
             let mut cert_state = FileState::Member(init as u8);
             let mut key_state = FileState::Member(init as u8);
-            write_state(&cert_path, &cert_state, true);
-            write_state(&key_path, &key_state, false);
+            let mut generation = 0u32;
+            let linked = case.symlinked;
+            let put = |path: &std::path::Path, f: &FileState, is_cert: bool, generation: &mut u32| {
+                if linked {
+                    write_state_linked(path, f, is_cert, generation)
+                } else {
+                    write_state(path, f, is_cert)
+                }
+            };
+            put(&cert_path, &cert_state, true, &mut generation);
+            put(&key_path, &key_state, false, &mut generation);
             let cfg = CertReloaderConfig { cert_path: cert_path.clone(), key_path: key_path.clone(), watch_enabled: false, debounce_ms: 0, check_expiry: true, expiry_warning_days: 30 };
             let rel = match CertReloader::new(cfg) {
                 Ok(r) => r,
@@ -384,12 +418,12 @@ impl Family for ReloadFam {
             for (step, op) in case.ops.iter().enumerate() {
                 match op {
                     ROp::WriteCert(f) => {
-                        write_state(&cert_path, f, true);
+                        put(&cert_path, f, true, &mut generation);
                         cert_state = f.clone();
                         cert_written = Some(step);
                     }
                     ROp::WriteKey(f) => {
-                        write_state(&key_path, f, false);
+                        put(&key_path, f, false, &mut generation);
                         key_state = f.clone();
                         key_written = Some(step);
                     }
@@ -481,6 +515,7 @@ impl Family for ReloadFam {
         out.class_if(b, "reload-between-two-writes");
         out.class_if(case.ops.iter().any(|o| matches!(o, ROp::WriteCert(FileState::Trunc(..)) | ROp::WriteKey(FileState::Trunc(..)))), "truncated-file");
         out.class_if(case.ops.iter().any(|o| matches!(o, ROp::WriteCert(FileState::Member(4)))), "expired-cert");
+        out.class_if(case.symlinked, "paths-are-symbolic-links");
         Ok(out)
     }
 }
